@@ -101,6 +101,7 @@ Proof.
     + destruct (Nat.eqb_spec v j) as [|Hvj]; [discriminate|].
       destruct (nth_error (pws s) v) as [x|] eqn:Ev; [|discriminate].
       destruct (W_nth_error _ _ _ Ev) as [HWv Hv].
+      destruct (wslot w) eqn:Esl; [unfold clean in Hloc; destruct Hloc as (_ & F & _); congruence|].
       destruct ((1 <=? k) && (k <=? wlq x)) eqn:Ek; [|discriminate]. injection Hs as <-.
       apply andb_true_iff in Ek. destruct Ek as [Ek1 Ek2]. apply Nat.leb_le in Ek1, Ek2.
       assert (I1 : Inv (set_w s v (set_lq x (wlq x - k)))).
